@@ -8,5 +8,6 @@ pub mod framework;
 pub mod gen;
 pub mod refsem;
 pub mod run;
+pub mod shrink;
 pub mod term;
 pub mod util;
